@@ -164,7 +164,8 @@ class State:
 
 
 class LoopSummary:
-    def __init__(self, node, kind, var, iter_term, body_states, head_env):
+    def __init__(self, node, kind, var, iter_term, body_states, head_env, entry_env=None):
+        self.entry_env = entry_env or {}
         self.node = node
         self.kind = kind            # 'for' | 'while'
         self.var = var              # term of the loop variable (for)
@@ -190,13 +191,14 @@ class Evaluator:
     """Evaluate one function of the program model along all its paths."""
 
     def __init__(self, program, inline=None, max_paths=4096, max_depth=3, fill_defaults=True,
-                 callee_hook=None):
+                 callee_hook=None, observer=None):
         self.P = program
         self.inline = inline or (lambda qualname, depth: False)
         self.max_paths = max_paths
         self.max_depth = max_depth
         self.fill_defaults = fill_defaults
         self.callee_hook = callee_hook
+        self.observer = observer    # observer(call_node, term, state) for every evaluated call
         self.npaths = 0
         self._fresh = itertools.count()
         self.stats = {'forks': 0, 'calls_resolved': 0, 'calls_unresolved': 0, 'inlined': 0}
@@ -485,9 +487,11 @@ class Evaluator:
                         after.append(s2)
             return back, cont, exits, after
 
-        back1, cont1, exits, after = run_pass(st, '1')
+        st0 = st.copy()          # states are updated in place along a path: keep the entry state
+        st = st0.copy()
+        back1, cont1, exits, after = run_pass(st0.copy(), '1')
         body_states = [('back', b) for b in back1]
-        summary_head = st.env
+        summary_head = st0.env
         if cont1:
             # head of iterations >= 2: join of the continuing states, widened until stable.
             # A modified variable keeps its term only if every continuing state agrees on it.
@@ -507,7 +511,7 @@ class Evaluator:
             summary_head = head.env
         res = list(exits)
         for a in after:
-            a.loops.append(LoopSummary(s, 'while', None, None, body_states, summary_head))
+            a.loops.append(LoopSummary(s, 'while', None, None, body_states, summary_head, dict(st0.env)))
             if s.orelse:
                 res.extend(self._block(s.orelse, a, fi, depth))
             else:
@@ -868,7 +872,7 @@ class Evaluator:
                     for t, s2, k in self._ev(e.value, st, mod, fi, depth)]
         if isinstance(e, ast.BinOp):
             return self._ev_n([e.left, e.right], st, mod, fi, depth,
-                              lambda ts: ('bin', BINOPS[type(e.op)], ts[0], ts[1]))
+                              lambda ts: _fold(BINOPS[type(e.op)], ts[0], ts[1]))
         if isinstance(e, ast.UnaryOp):
             op = UNOPS[type(e.op)]
 
@@ -1011,7 +1015,12 @@ class Evaluator:
             kws = []
             for kw, t in zip(e.keywords, ts[off + n:]):
                 kws.append((kw.arg if kw.arg is not None else '**', t))
-            results.extend(self._apply(e, callee, bt, is_method_on_value, pos, kws, s2, mod, fi, depth))
+            res = self._apply(e, callee, bt, is_method_on_value, pos, kws, s2, mod, fi, depth)
+            if self.observer is not None:
+                for t, s3, k in res:
+                    if k == 'ok':
+                        self.observer(e, t, s3)
+            results.extend(res)
         return results
 
     def _ev_n_raw(self, exprs, st, mod, fi, depth):
@@ -1202,6 +1211,13 @@ def _mk_sub(base, idx):
             if k == idx:
                 return v
     return ('sub', base, idx)
+
+
+def _fold(op, a, b):
+    """Fold integer arithmetic on literals (keeps counters readable)."""
+    if is_c(a) and is_c(b) and type(a[1]) is int and type(b[1]) is int and op in ('+', '-', '*'):
+        return C({'+': a[1] + b[1], '-': a[1] - b[1], '*': a[1] * b[1]}[op])
+    return ('bin', op, a, b)
 
 
 def _add(a, b):
